@@ -99,7 +99,95 @@ def _accumulation(ctx, fn, h):
                     return rhs, is_row_value, locs
     return None
 
+def aggregates_by_evaluation(ctx):
+    """get_aggregate_value evaluated (finite interpreter, helpers included) for every variant of Function on 10 buffers and
+    compared with the textbook value: COUNT = rows, SUM / MIN / MAX exact over the integer cells (values beyond 2^53
+    included), AVG = SUM / COUNT as a real number, VAR_* / STDDEV_* by the population / sample formulas (relative 1e-9).
+    Conventions the property does not fix are left out: empty buffer, sample statistics of one row, AVG and the
+    variance family over buffers with missing cells.  Returns False when the function cannot be evaluated."""
+    import interp
+    import math
+    h = ctx.anchor_hir(AGG)
+    ps = ctx.prog.fns[AGG]["params"]
+    if len(ps) != 4:
+        return False
+    B = 2 ** 53
+    full = {"one": [5], "two": [3, 7], "dup": [4, 4, 4], "mixed": [10, 1, 6, 2], "unsorted": [9, 2, 11, 2, 5], "big": [B + 1, B + 1, 3],
+            "zero": [0, 0, 12], "near": [1000000001, 1000000002, 1000000003]}
+    holes = {"hole-middle": [3, None, 7], "hole-first": ["", 8, 2]}
+    variants = sorted(ctx.prog.adt_variants("function::Function") or [])
+    if len(variants) < 40:
+        return False
+    bad, n, isagg_bad = [], 0, []
+    ISAGG = "function::Function::is_aggregate_function"
+    for v in variants:
+        try:
+            ia = interp.Interp(prog=ctx.prog, max_steps=4000).run(ctx.anchor_hir(ISAGG), {ctx.prog.fns[ISAGG]["params"][0]["id"]: interp.V("Function::" + v, [])})
+        except interp.Undecided:
+            return False
+        n += 1
+        if bool(ia) != (v in oracles.AGGREGATES):
+            isagg_bad.append("%s: %s" % (v, ia))
+        for label, vals in list(full.items()) + list(holes.items()):
+            ints = [x for x in vals if isinstance(x, int)]
+            if v in oracles.AGGREGATES:
+                cnt = len(vals)
+                if v == "Count":
+                    want = cnt
+                elif v == "Sum":
+                    want = sum(ints)
+                elif v == "Min":
+                    want = min(ints)
+                elif v == "Max":
+                    want = max(ints)
+                elif v == "Avg":
+                    want = sum(ints) / cnt          # SUM / COUNT, as the property states it
+                elif label in holes:
+                    continue
+                else:
+                    mean = sum(ints) / cnt
+                    if True:
+                        samp = v.endswith("Samp")
+                        if samp and cnt < 2:
+                            continue
+                        var = sum((x - mean) ** 2 for x in ints) / (cnt - 1 if samp else cnt)
+                        want = math.sqrt(var) if v.startswith("StdDev") else var
+            else:
+                want = "DEFAULT"
+            buf = [interp.HMap({"k": str(x), "other": "1"} if x is not None else {"other": "1"}) for x in vals]
+            env = {ps[0]["id"]: interp.some(interp.V("Function::" + v, [])), ps[1]["id"]: buf, ps[2]["id"]: "k", ps[3]["id"]: interp.some("DEFAULT")}
+            try:
+                got = interp.Interp(prog=ctx.prog, max_steps=40000).run(h, env)
+            except interp.Undecided as e:
+                ctx.covered("evaluation of get_aggregate_value gave up (%s over %s: %s); the structural rules apply" % (v, label, str(e)[:160]), 0)
+                return False
+            n += 1
+            if isinstance(want, float):
+                try:
+                    ok = abs(float(got) - want) <= 1e-9 * max(1.0, abs(want))
+                except (TypeError, ValueError):
+                    ok = False
+            else:
+                ok = got == str(want)
+            ctx.obligation(ok)
+            if not ok:
+                bad.append((v, "%s over the rows %s is `%s`, expected %s" % (v.upper(), vals, got, want)))
+    ctx.covered("get_aggregate_value evaluated for every Function variant on 10 buffers against the textbook value; is_aggregate_function on every variant",
+                n, distinct_keys=variants, exhaustive=True)
+    seen = set()
+    for v, msg in bad:
+        if v not in seen:
+            seen.add(v)
+            ctx.violation("aggregate-value/%s" % v, ctx.where(AGG), msg + " (exact for COUNT / SUM / MIN / MAX, SUM / COUNT for AVG, the population / sample formulas for the variance family; a non-aggregate gives the default)")
+    ctx.obligation(not isagg_bad)
+    if isagg_bad:
+        ctx.violation("aggregate-set", ctx.where(ISAGG), "is_aggregate_function differs from the documented aggregates on %s" % ", ".join(isagg_bad))
+    return True
+
+
 def r2(ctx):
+    if aggregates_by_evaluation(ctx):
+        return
     arms, m = agg_arms(ctx)
     n = 0
 
